@@ -43,6 +43,11 @@ def cases(tier, seed):
         for c in designs.seq_cases():
             out.append(dict(c, K=3, cfg='sym'))
             out.append(dict(c, K=3, cfg='reset', default_value=0))
+            if 'mem' in c['kind']:
+                out.append(dict(c, K=3, cfg='reset', default_value=1))     # (a default every register can hold)
+        for c in designs.misc_cases():
+            if 'mem' in c.get('kind', ''):
+                out.append(dict(c, K=3, cfg='reset', default_value=1))
         for c in designs.misc_cases() + designs.dup_cases()[:6] + designs.constop_cases()[:30] + designs.carg_cases():
             out.append(dict(c, K=3, cfg='sym'))
     else:
